@@ -1073,12 +1073,17 @@ impl SparqlDatabase {
                         predicate: this.encode_loaded_term(&predicate),
                         object: this.encode_loaded_term(&object),
                     };
-                    this.add_triple(triple);
+                    this.add_triple(triple.clone());
 
                     // Emit annotation triples, if any
                     for (ann_pred, ann_obj) in &annotations {
-                        let qt_str = format!("<< {} {} {} >>", subject, predicate, object);
-                        let qt_id = this.encode_term_star(&qt_str);
+                        // The annotation is about the triple just asserted: quote it by its ids
+                        // instead of printing the decoded terms and parsing them again.
+                        let qt_id = this.quoted_triple_store.write().unwrap().encode(
+                            triple.subject,
+                            triple.predicate,
+                            triple.object,
+                        );
 
                         let ann_p_id = this.encode_loaded_term(&this.turtle_term(ann_pred));
                         let ann_o_id = this.encode_loaded_term(&this.turtle_term(ann_obj));
